@@ -107,6 +107,16 @@ def run(ctx):
     a = lambda c: [enc_arr(c["rows"])]
     correspond(ctx, "self_intersections_glue", cases, [("hazmat.self_intersections_traced", a, traced_out)],
                coq_traced, HEADER, "chk_self", configs=("pure", "speedup"), nontrivial=lambda c: c["kind"] != "convex-arc")
+    def coq_traced_n(c, obs):
+        if obs[0][0] in ("exc", "malformed"):
+            return None
+        from common import coq_mat
+        angles, isects, out = obs[0][1][:3]
+        pl = lambda arr: "[" + "; ".join("(%s, %s)" % (coq_q(s), coq_q(t)) for s, t in (zip(arr[0], arr[1]) if arr and arr[0] else [])) + "]"
+        return ["(%s, [%s], [%s], %s)" % (coq_mat(c["rows"]), "; ".join("true" if a else "false" for a in angles), "; ".join(pl(i) for i in isects), pl(out))]
+    correspond(ctx, "self_intersections_glue_with_nodes", cases, [("hazmat.self_intersections_traced", a, traced_out)],
+               coq_traced_n, HEADER, "chk_self_n", configs=("pure",), nontrivial=lambda c: c["kind"] != "convex-arc")
+
     def coq_calls(c, obs):
         if obs[0][0] in ("exc", "malformed"):
             return None
